@@ -7,6 +7,9 @@ from concurrent.futures import ThreadPoolExecutor
 HERE=os.path.dirname(os.path.dirname(os.path.abspath(__file__)))
 ids=sorted(os.path.basename(d) for d in glob.glob(os.path.join(HERE,'seeded','C*-m*')))
 def run(i):
+    meta=json.load(open(os.path.join(HERE,'seeded',i,'meta.json')))
+    if meta.get('neutralised_by'):
+        return i,'SELFTEST %s: NEUTRALISED by a repair of /repo (see meta.json)'%i
     r=subprocess.run([os.path.join(HERE,'tools','selftest.sh'),i],capture_output=True,text=True)
     line=[l for l in r.stdout.splitlines() if l.startswith('SELFTEST')]
     return i,(line[-1] if line else 'SELFTEST %s: ? %s'%(i,r.stdout[-200:]))
@@ -16,7 +19,7 @@ rows=[]
 for i in ids:
     m=json.load(open(os.path.join(HERE,'seeded',i,'meta.json')))
     line=res[i]
-    status='DETECTED' if 'DETECTED' in line else 'MISSED'
+    status='DETECTED' if 'DETECTED' in line else ('NEUTRALISED' if 'NEUTRALISED' in line else 'MISSED')
     key=''
     mm=re.search(r'finding key=(.*?) count=',line)
     if mm: key=mm.group(1)
@@ -26,4 +29,4 @@ with open(os.path.join(HERE,'seeded','RESULTS.md'),'w') as f:
     f.write('| id | change | needs to manifest | quick check | keys | first finding key |\n|---|---|---|---|---|---|\n')
     for r in rows: f.write('| '+' | '.join(r)+' |\n')
 print('\n'.join('%s %s'%(r[0],r[3]) for r in rows))
-print('missed:',[r[0] for r in rows if r[3]!='DETECTED'])
+print('missed:',[r[0] for r in rows if r[3] not in ('DETECTED','NEUTRALISED')])
